@@ -7,6 +7,7 @@ import (
 	"encoding/json"
 	"flag"
 	"fmt"
+	"io"
 	"os"
 	"os/exec"
 	"path/filepath"
@@ -157,7 +158,53 @@ func Main() {
 	if *replay != "" {
 		os.Exit(doReplay(specs, *replay))
 	}
+	if os.Getenv("VERIF_SUPERVISED") == "" {
+		os.Exit(supervise())
+	}
+	if os.Getenv("VERIF_FORCE_ISOLATE") != "" {
+		for i := range specs {
+			specs[i].Isolated = true
+		}
+	}
 	os.Exit(runAll(r, specs, *verifDir, *only))
+}
+
+// supervise runs the check in a child process. A fatal runtime error of the code under test (stack exhaustion, memory
+// exhaustion, a fatal concurrent map access) kills a Go process without unwinding, so no harness can report it; when the
+// child dies that way the check is repeated with every harness in crash-isolating worker processes, which attribute the
+// death to the case that was executing and report it as a violation.
+func supervise() int {
+	self, err := os.Executable()
+	if err != nil {
+		fmt.Fprintln(os.Stderr, "TOOL-ERROR", err)
+		return 2
+	}
+	run := func(extra ...string) (int, string) {
+		cmd := exec.Command(self, os.Args[1:]...)
+		cmd.Env = append(append(os.Environ(), "VERIF_SUPERVISED=1"), extra...)
+		cmd.Stdout = os.Stdout
+		var sb strings.Builder
+		cmd.Stderr = io.MultiWriter(os.Stderr, &limitedWriter{w: &sb, n: 1 << 20})
+		err := cmd.Run()
+		if err == nil {
+			return 0, sb.String()
+		}
+		if ee, ok := err.(*exec.ExitError); ok && ee.ExitCode() >= 0 {
+			return ee.ExitCode(), sb.String()
+		}
+		return -1, sb.String()
+	}
+	code, se := run()
+	if code == 0 || code == 1 {
+		return code
+	}
+	fatal := code < 0 || strings.HasPrefix(se, "fatal error: ") || strings.Contains(se, "\nfatal error: ") || strings.Contains(se, "goroutine stack exceeds")
+	if !fatal || strings.Contains(se, "TOOL-ERROR") {
+		return code
+	}
+	fmt.Fprintln(os.Stderr, "note: the check process died of a fatal runtime error; repeating with every harness in crash-isolating worker processes")
+	code, _ = run("VERIF_FORCE_ISOLATE=1")
+	return code
 }
 
 func flagSet(name string) bool {
